@@ -26,10 +26,16 @@ LEVEL_NOTE = ("theorems: trash-list is a function of the bag (one event per info
               "the string-level front of each command (which canonical arguments a command line denotes) is validated by "
               "the history runs, where every step is also judged by the effect oracle")
 RULE = ("seeded histories (quick: 40 histories x <= 10 steps, thorough: 500 x <= 30) of put / restore / rm / empty / list over "
-        "2-3 volumes with repeated names, nested paths, entries restored and trashed again; after every step the listing is "
+        "2-3 volumes with repeated names, nested paths, entries restored and trashed again, half of them starting from a trash that "
+        "already holds entries written by other implementations (CRLF, lone CR, extra keys, no final newline); after every step the listing is "
         "compared with Effects.bagLines of the on-disk state, the step's effect with Effects.check (which entries may disappear) "
         "and the transition with the model's")
 NAMES = [b"a", b"b", b"a b", b"doc.txt", b"caf\xc3\xa9", b"x%y", b"new\nline", b"d1", b"...", b"....", b"x.trashinfo"]
+
+
+def _text(raw):
+    """as a text-mode read sees it (universal newlines)"""
+    return raw.replace(b"\r\n", b"\n").replace(b"\r", b"\n")
 
 
 def trash_entries(state):
@@ -38,7 +44,7 @@ def trash_entries(state):
     for p, v in state.items():
         m = re.match(rb"^(.*)/info/([^/]+)\.trashinfo$", p)
         if m and v[0] == "f":
-            pm = re.search(rb"(?m)^Path=(.*)$", v[1])
+            pm = re.search(rb"(?m)^Path=(.*)$", _text(v[1]))
             if pm:
                 out.append((m.group(1), m.group(2), unquote_to_bytes(pm.group(1))))
     return out
@@ -51,7 +57,7 @@ def meta_entries(state, home):
         m = re.match(rb"^(.*)/\.Trash(-\d+|/\d+)$", t)
         base = (m.group(1) or b"/") if m else None
         loc = rec if rec.startswith(b"/") or base is None else base.rstrip(b"/") + b"/" + rec
-        dm = re.search(rb"(?m)^DeletionDate=(.*)$", state[t + b"/info/" + n + b".trashinfo"][1])
+        dm = re.search(rb"(?m)^DeletionDate=(.*)$", _text(state[t + b"/info/" + n + b".trashinfo"][1]))
         out.append({"tdir": t, "name": n, "loc": loc, "rec": rec, "date": dm.group(1).decode("latin-1") if dm else "", "base": base})
         tdirs.add(t)
     return out, sorted(tdirs)
@@ -79,6 +85,19 @@ def history(task):
     dirs = [home + b"/docs", home + b"/docs/sub", R + b"/vol1/stuff", R + b"/vol1/stuff/deep"] + ([R + b"/vol2/x"] if len(vols) > 2 else [])
     for d in dirs:
         w.dir(d)
+    if rng.random() < 0.5:
+        # the history does not start from an empty trash: entries written by other implementations of the specification
+        # (CRLF or lone-CR line ends, extra keys and sections, no final newline) are already there
+        from .c20 import render
+        t = rng.choice([home + b"/.local/share/Trash", R + b"/vol1/.Trash-1000"])
+        w.dir(t, 0o700)
+        w.dir(t + b"/files", 0o700)
+        w.dir(t + b"/info", 0o700)
+        for j in range(rng.randint(1, 2)):
+            shape = rng.choice(["crlf", "lone-cr", "extra", "no-final-newline", "dup-keys", "crlf"])
+            path = (home + b"/docs/" if t.startswith(home) else b"stuff/") + b"from%%20elsewhere%d" % j
+            w.file(t + b"/info/foreign%d.trashinfo" % j, render(shape, path, b"2024-03-01T12:00:0%d" % j), 0o600)
+            w.file(t + b"/files/foreign%d" % j, b"foreign payload")
     base = w.world(env={"HOME": home}, uid=uid, cwd=home, cmd="list", opts={}, args=[], stdin=None,
                    meta={"entries": [], "tdirs": [], "profile": "c09", "payload_kinds": []})
     state = {n["p"]: (n["k"], n.get("data", b""), n.get("mode", 0), n.get("mtime", 0), n.get("target", b"")) for n in base["nodes"]}
